@@ -24,7 +24,6 @@ import (
 	"math/rand"
 	"os"
 	"path/filepath"
-	"runtime"
 	"sort"
 	"strconv"
 	"strings"
@@ -80,7 +79,13 @@ type witness struct {
 	Err      string     `json:"error,omitempty"`
 }
 
-func main() { core.Main("C08", "model_checking", run) }
+func main() {
+	if os.Getenv("VERIF_C08_CHILD") == "1" {
+		childMain()
+		return
+	}
+	core.Main("C08", "model_checking", run)
+}
 
 func loadsOf(objs [][]mrow) [][]string {
 	out := make([][]string, len(objs))
@@ -429,43 +434,59 @@ func (h *harness) replayCase(cs *caseJ, id int) error {
 }
 
 // freeRun repeats replayed cases without the gate at parallelism 2..16 under
-// GOMAXPROCS 1, 2 and 16.
+// GOMAXPROCS 1, 2 and 16 (in a child process, see child.go).
 func (h *harness) freeRun(cases []caseJ, idx []int, rng *rand.Rand) error {
-	c, e := h.c, h.e
+	c := h.c
 	per := 60
 	if !c.Quick() {
 		per = 1500
 	}
-	old := runtime.GOMAXPROCS(0)
-	defer runtime.GOMAXPROCS(old)
 	t0 := time.Now()
-	n := 0
+	var jobs []freeJob
+	meta := map[string]*caseJ{}
 	for _, procs := range []int{1, 2, 16} {
-		runtime.GOMAXPROCS(procs)
 		for k := 0; k < per && len(idx) > 0; k++ {
 			cs := &cases[idx[rng.Intn(len(idx))]]
-			p, err := e.buildPool(layoutKey(cs.Objs, cs.Desc), cs.Desc, 0, loadsOf(cs.Objs))
-			if err != nil {
-				return err
-			}
-			src := progText(p.name, cs.Prog)
 			par := []int{2, 3, 8, 16}[rng.Intn(4)]
-			r1, err := e.query(src, 1)
-			if err != nil {
-				return err
-			}
-			var tags []string
-			if seq, err := e.plan(src, par); err == nil {
-				_, tags, _ = e.realPlan(seq)
-			}
-			rN, errN := e.query(src, par)
-			w := witness{Loads: loadsOf(cs.Objs), Desc: cs.Desc, Prog: cs.Prog, N: par, Procs: procs, Query: src, Par1: r1, ParN: rN}
-			h.oracle(w, cs.Seq.Mode, cs.Seq.ByF, cs.Seq.Det, r1, rN, errN, tags)
-			c.Eval(fmt.Sprintf("free|%s|%s|%d|%d", layoutKey(cs.Objs, cs.Desc), strings.Join(cs.Prog, "|"), par, procs), len(cs.Objs) >= 2)
-			n++
+			key := fmt.Sprintf("free|%d|%s|%s|%d|%d", len(jobs), layoutKey(cs.Objs, cs.Desc), strings.Join(cs.Prog, "|"), par, procs)
+			jobs = append(jobs, freeJob{Key: key, Pool: layoutKey(cs.Objs, cs.Desc), Loads: loadsOf(cs.Objs), Desc: cs.Desc, Prog: cs.Prog, Par: par, Procs: procs})
+			meta[key] = cs
 		}
 	}
-	c.Set("free_running_runs", n)
-	c.Logf("free-running repeats: %d runs at parallelism 2..16, GOMAXPROCS 1/2/16 (%.1fs)", n, time.Since(t0).Seconds())
+	res, err := runFree(jobs)
+	if err != nil {
+		return err
+	}
+	for _, j := range jobs {
+		r, ok := res[j.Key]
+		if !ok {
+			continue
+		}
+		cs := meta[j.Key]
+		h.judgeFree(j, r, cs.Seq.Mode, cs.Seq.ByF, cs.Seq.Det)
+		c.Eval(j.Key[strings.Index(j.Key[5:], "|")+6:], len(cs.Objs) >= 2)
+	}
+	c.Set("free_running_runs", len(jobs))
+	c.Logf("free-running repeats: %d runs at parallelism 2..16, GOMAXPROCS 1/2/16 (%.1fs)", len(jobs), time.Since(t0).Seconds())
 	return nil
+}
+
+// judgeFree applies the oracle to one free-running result.
+func (h *harness) judgeFree(j freeJob, r freeRes, mode, byf string, det bool) {
+	w := witness{Loads: j.Loads, Desc: j.Desc, Thresh: j.Thresh, Prog: j.Prog, N: j.Par, Procs: j.Procs, Query: r.Query, Par1: r.R1, ParN: r.RN}
+	if r.Crash {
+		w.Err = r.Msg
+		w.Query = progText("pool", j.Prog)
+		h.c.Violate(h.signature("crash", nil, j.Prog), fmt.Sprintf("`%s` at parallelism %d (GOMAXPROCS %d) kills the process: %s", w.Query, j.Par, j.Procs, r.Msg), w)
+		return
+	}
+	if r.Err1 != "" {
+		h.c.Inconclusive("parallelism 1 failed for %s: %s", r.Query, r.Err1)
+		return
+	}
+	var errN error
+	if r.ErrN != "" {
+		errN = fmt.Errorf("%s", r.ErrN)
+	}
+	h.oracle(w, mode, byf, det, r.R1, r.RN, errN, r.Tags)
 }
